@@ -201,6 +201,19 @@ func (fa *FA) FactsAtSite(s retSite, extra ...*Lin) []Fact {
 	return fa.closeFacts(facts, extra...)
 }
 
+// FactsOnEdge: the facts holding when control passes from pred to succ.
+func (fa *FA) FactsOnEdge(pred, succ *ssa.BasicBlock, extra ...*Lin) []Fact {
+	conds := append(append([]Cond{}, condsAt(pred)...), edgeCond(pred, succ)...)
+	var facts []Fact
+	for _, c := range conds {
+		facts = append(facts, fa.condFacts(c)...)
+	}
+	facts = append(facts, fa.loopFacts(pred.Instrs[len(pred.Instrs)-1])...)
+	facts = append(facts, fa.calleeFacts(conds)...)
+	facts = append(facts, fa.entryFacts()...)
+	return fa.closeFacts(facts, extra...)
+}
+
 func (fa *FA) FactsAt(in ssa.Instruction, extra ...*Lin) []Fact {
 	var facts []Fact
 	for _, c := range condsAtInstr(in) {
